@@ -477,6 +477,80 @@ def path_conditions(module, func, target):
     return atomise(conds)
 
 
+def paths_to(func, target, limit=256):
+    """Every acyclic path of the function body that reaches the statement `target`, as the list of atomic facts collected on it
+    (tests taken / not taken, in order; facts about names re-bound later on the path are dropped). Joins are *not* merged: a
+    statement after `if a: ... ` is reached by two paths. Loops are entered zero times or once (facts from inside a loop body do
+    not survive the loop). None when there are more than `limit` paths or the target is not a statement of the function."""
+    found = []
+
+    class Over(Exception):
+        pass
+
+    def kill(facts, stmt):
+        bound = set()
+        for n in ast.walk(stmt):
+            if isinstance(n, ast.Name) and isinstance(n.ctx, (ast.Store, ast.Del)):
+                bound.add(n.id)
+            elif isinstance(n, ast.AugAssign) and isinstance(n.target, ast.Name):
+                bound.add(n.target.id)
+        if not bound:
+            return facts
+        return [f for f in facts if not (names_in(f[0]) & bound)]
+
+    def run(stmts, facts):
+        """-> list of fact lists with which control falls off the end of stmts"""
+        live = [facts]
+        for st in stmts:
+            nxt = []
+            for fs in live:
+                if st is target:
+                    found.append(list(fs))
+                    if len(found) > limit:
+                        raise Over()
+                if isinstance(st, ast.If):
+                    a = run(st.body, fs + [(st.test, True, 'branch')])
+                    b = run(st.orelse, fs + [(st.test, False, 'branch')])
+                    nxt.extend(a + b)
+                elif isinstance(st, (ast.For, ast.While)):
+                    inner = fs + ([(st.test, True, 'loop-test')] if isinstance(st, ast.While) else [])
+                    run(st.body, kill(inner, st))
+                    nxt.append(kill(fs, st))
+                    if st.orelse:
+                        nxt = [x for y in nxt for x in run(st.orelse, y)]
+                elif isinstance(st, ast.Try):
+                    a = run(st.body, fs)
+                    for h in st.handlers:
+                        a = a + run(h.body, kill(fs, st))
+                    if st.orelse:
+                        a = [x for y in a for x in run(st.orelse, y)]
+                    if st.finalbody:
+                        a = [x for y in a for x in run(st.finalbody, y)]
+                    nxt.extend(a)
+                elif isinstance(st, ast.With):
+                    nxt.extend(run(st.body, kill(fs, ast.Module(body=[ast.Expr(value=i.optional_vars) for i in st.items if i.optional_vars is not None], type_ignores=[]))))
+                elif isinstance(st, (ast.Return, ast.Raise, ast.Continue, ast.Break)):
+                    pass
+                elif isinstance(st, ast.Assert):
+                    nxt.append(kill(fs, st) + [(st.test, True, 'assert')])
+                else:
+                    nxt.append(kill(fs, st))
+                if len(nxt) > limit:
+                    raise Over()
+            live = nxt
+            if not live:
+                # nothing falls through; later statements are unreachable on these paths (target may still be nested later)
+                break
+        return live
+    try:
+        run(func.node.body, [])
+    except Over:
+        return None
+    if not found:
+        return None
+    return [atomise(fs) for fs in found]
+
+
 def atomise(conds):
     """Facts in atomic form: `not X` holds  ==  X fails;  `A and B` holds == both hold;  `A or B` fails == both fail."""
     out = []
